@@ -27,6 +27,11 @@ GOTO_PROGRAMS = {
     'goto_plain': 'char a; void main() { a = 0; again: a++; if (a != 5) goto again; }',
     'goto_fwd': 'char a, b; void main() { if (a) goto out; b = 1; out: b++; }',
     'goto_loop': 'char a, b; void main() { for (a = 0; a != 3; a++) { if (b) goto done; b = a; } done: b = 2; }',
+    # rejected since 13a88c5; if ever accepted again, the undefined / duplicate label shows up in the output
+    'goto_undefined': 'void main() { goto nowhere; }',
+    'goto_duplicate': 'void main() { a: X = 0; a: Y = 0; goto a; }',
+    'goto_other_function': 'void f() { there: X = 1; } void main() { f(); goto there; }',
+    'goto_nested': 'char a; void main() { while (a) { switch (a) { case 1: goto out; default: a--; } } out: a = 1; }',
 }
 # continue / break reached through a switch nested in each kind of loop: the jump target must be defined
 LOOP_EXIT_PROGRAMS = {}
